@@ -768,6 +768,9 @@ class Interp:
             if name in v.attrs:
                 yield st, v.attrs[name]
                 return
+            if v.attrs.get("__noattr__"):
+                yield st, Raise(make_exc(st, "AttributeError", "object has no attribute '%s'" % name))
+                return
             r = self.lib.opaque_attr(self, st, v, name)
             yield st, r
             return
@@ -922,7 +925,7 @@ class Interp:
             return None
         rel = os.path.relpath(f.module.path, self.repo_root) if f.module.path else f.module.name
         key = (rel, f.qualname)
-        if key in self.contracts and key not in self.no_contract:
+        if key in self.contracts and key not in self.no_contract and not getattr(self.contracts[key], "helper", False):
             return key
         return None
 
